@@ -321,6 +321,27 @@ def run(ctx):
                 if wire.cstate(o2) != val:
                     ctx.violation(f'{name}: replacing the hidden/out-of-view world cell {q} by {gen.show_obj(repl)} changed the observation',
                                   {'function': name, 'area': area, 'state': gen.show_state(cs), 'cell': q, 'replacement': gen.show_obj(repl), 'wire_state': cs})
+        # the same world with every door toggled (open <-> shut: same object TYPES at the same places, other opacity), looked at right after:
+        # opacity belongs to the object as it is now; the chain clause must hold in the toggled world, and the model is asked too
+        DOOR = gen.TY['Door']
+        if any(c[0] == DOOR for row in g for c in row):
+            g2 = tuple(tuple((DOOR, 0 if c[1] != 0 else r.choice([1, 2]), c[2], None) if c[0] == DOOR else c for c in row) for row in g)
+            cs2 = (g2, p, o, held)
+            k2, v2, l2, t2, obs2, st2 = osuite.run_obs(name, area, cs2)
+            ometas.append((name, area, cs2, k2, v2, l2))
+            oreqs.append(osuite.obs_request(name, area, cs2, t2))
+            ctx.count('pair oracle', 'doors toggled')
+            if k2 == 'ok' and area[0] <= 0 <= area[1] and area[2] <= 0 <= area[3]:
+                shown2 = set()
+                for i in range(area[1] - area[0] + 1):
+                    for j in range(area[3] - area[2] + 1):
+                        if not isinstance(obs2.grid[i, j], Hidden):
+                            wp = st2.agent.transform * Position(area[0] + i, area[2] + j)
+                            if 0 <= wp.y < h and 0 <= wp.x < w:
+                                shown2.add(wp.yx)
+                if not adjacent_chain_ok(g2, p, sorted(shown2)):
+                    ctx.violation(f'{name}: with the doors toggled, a shown cell is not linked to the agent by adjacent transparent shown cells',
+                                  {'function': name, 'area': area, 'state': gen.show_state(cs2), 'wire_state': cs2, 'looked_at_before': gen.show_state(cs)})
     osuite.compare(ctx, ometas, oreqs)
     # (c) stochastic variant: bounds
     ns = 120 if ctx.tier == 'quick' else 1200
